@@ -85,9 +85,10 @@ def compare(case, out, model):
     m, n, p = len(data), len(data[0]), len(data[0][0])
     h = n // 2
     for k in range(p):
-        W = Fraction(model[6 * k], model[6 * k + 1])
-        V = Fraction(model[6 * k + 2], model[6 * k + 3])
-        tau = Fraction(model[6 * k + 4], model[6 * k + 5])
+        W = Fraction(model[8 * k], model[8 * k + 1])
+        V = Fraction(model[8 * k + 2], model[8 * k + 3])
+        tau = Fraction(model[8 * k + 4], model[8 * k + 5])
+        E = Fraction(model[8 * k + 6], model[8 * k + 7])
         if W == 0 or V == 0 or tau == 0:
             continue
         g = C.f32_bits_to_float(out["ess"][k])
@@ -97,7 +98,9 @@ def compare(case, out, model):
         if abs(gt - tau) > Fraction(1, 256) * (1 + abs(tau)):
             return "param %d (%d chains x %d draws): implementation tau = M*N/ESS = %.6g, model tau = %.6g" % (
                 k, m, n, float(gt), float(tau))
-    if len(model) > 6 * p and model[6 * p] != 1:
+        if abs(Fraction(g) - E) > Fraction(1, 128) * (1 + abs(E)):
+            return "param %d (%d chains x %d draws): ESS %.6g, Model.Stats.ess = %.6g" % (k, m, n, g, float(E))
+    if len(model) > 8 * p and model[8 * p] != 1:
         return "Q model: circular (FFT) autocovariance differs from the brute-force one"
     return None
 
